@@ -13,18 +13,22 @@ COMMON_ASSUMPTIONS = [
     "verdicts hold for every input within the stated bounds and say nothing outside them",
 ]
 
-INSN_TRUSTED = ['iced-x86 decoder: bridged natively (witness bytes -> fields -> rebuilt Instruction == decoded Instruction), not executed by the solver', 'reference semantics /verif/harness/x86ref.rs (written from the Intel SDM; spot-checked against the host CPU for SHL count 0 / CMOVcc r32)', 'stubs: collect_mem_error_hints -> fixed error; Display/Debug of iced Instruction/Code/Mnemonic/Register/OpKind -> Ok(())']
+INSN_TRUSTED = ['iced-x86 decoder: bridged natively (witness bytes -> fields -> rebuilt Instruction == decoded Instruction), not executed by the solver', 'reference semantics /verif/harness/x86ref.rs (written from the Intel SDM; compared natively with the host CPU by lib/cpu_validate.py: 240 forms, 843 encodings, 126 450 executions, 0 disagreements on registers and defined flags, see /verif/oracle_validation/cpu_validation.json)', 'stubs: collect_mem_error_hints -> fixed error; Display/Debug of iced Instruction/Code/Mnemonic/Register/OpKind -> Ok(())']
 
 INSN_BOUNDS = ("one handler call (mnemonic_<m>) per implemented form x shape from a fully symbolic machine: all 16 GPRs + RIP (2^64 each), "
                "rflags (bits 0..=21 arbitrary; the reserved-zero bits 22..=63 are zero), fs, gs, 2 XMM registers symbolic (others distinct constants) where the form names one, immediates / "
                "displacement / branch target symbolic over everything the encoding can carry; memory forms: one area D of 32 symbolic bytes at "
                "0x40000000 with an arbitrary permission mask out of the 6 CPU-realisable ones (no write-only masks), address = symbolic base register + symbolic disp8 (inside, straddling, outside D). "
-               "Shapes: quick = mod=11 register shape (8- and 64-bit widths of each operand pattern) + [base+disp8] shape (widest width); thorough "
-               "adds all widths, dest==src alias, AH..BH, REX registers, SPL..DIL, [r13+disp8]. Register numbers rotate with VERIF_SEED. unwind 90")
+               "Shapes: quick = mod=11 register shape (8- and 64-bit widths of each operand pattern) + [base+disp8] shape (widest width, one operand pattern per mnemonic); thorough "
+               "adds the register shape at all widths, dest==src alias, AH..BH, REX registers, SPL..DIL, and the [base+disp8] shape at the 8-bit, 64-bit and widest width of every "
+               "operand pattern (the omitted width x shape pairs are listed under coverage.generator.mem_widths_not_generated). Register numbers rotate with VERIF_SEED. unwind 90")
 INSN_OUTSIDE = ("encodings the witness generator does not produce (other ModRM/SIB addressing shapes are C05's subject; prefixes such as LOCK/REP); "
-                "forms not decodable in 64-bit mode (listed in the evidence); iced's decoder itself; 64-bit DIV/IDIV/MUL/IMUL values share the 128-bit "
-                "primitive with the implementation (operand routing, extension, hi/lo split and flags are checked, not the multiplier/divider circuit); "
-                "the #DE condition is checked independently without a divider; AF is never compared")
+                "forms not decodable in 64-bit mode (listed in the evidence); iced's decoder itself; 64-bit MUL/IMUL values share the 128-bit "
+                "primitive with the implementation (operand routing, extension, hi/lo split and flags are checked, not the multiplier circuit) and are not decided with a memory operand; "
+                "DIV/IDIV: decided for all inputs at 8 bits only (value, remainder, #DE); at 64 bits the #DE condition alone is decided for all inputs (reference without a divider); "
+                "at 16/32/64 bits the value harnesses and the 16/32-bit #DE harness never finished (25 min cap) and are replaced, thorough tier only, register shape only, by a bounded "
+                "variant whose divisor ranges over 10 boundary constants (0, 1, 2, 3, 10, 16, 2^w-1, 2^w-2, 2^(w-1), 2^(w-1)-1) with the dividend arbitrary - every other divisor at those widths is outside the claim "
+                "(coverage.generator.skipped_heavy lists the pairs); AF is never compared")
 
 PROPS = {
     "C01": {"bounds": INSN_BOUNDS + "; obligations: every GPR, every XMM register, every byte of D, RIP == next instruction, fs/gs untouched; "
@@ -117,6 +121,8 @@ PROPS = {
 SKIP_HARNESSES = {
     "c05_mov_load": "solver out of memory at 12 GB (symbolic base x index x scale x segment together with a symbolic-offset memory access)",
     "c05_mov_store": "same as c05_mov_load",
+    "gi_imul_r_rm_imm_w32_reg": "IMUL r32, r/m32, imm8/imm32 in the plain register shape ran into the 25 min cap (independent 32x32 multiplier, two forms); the same two forms "
+                                "are decided in the regalias/reghi/regrex/regx shapes (7-13 min each)",
     "gd_Idiv_rm64_reg": "two 128-bit divider circuits (two runs of IDIV r/m64) exceed 25 min; determinism of the 8/16/32-bit forms follows from their C01 obligations",
     "gd_Idiv_rm64_mem": "same as gd_Idiv_rm64_reg",
     "gd_Div_rm64_reg": "same as gd_Idiv_rm64_reg",
